@@ -15,6 +15,9 @@ try:
         d = f'{V}/seeded/{name}'
         meta = json.load(open(f'{d}/meta.json'))
         checks = [c for c in meta.get('caught_by', []) if c.startswith('C') and len(c) == 3]
+        if meta.get('quick_reliable') is False:
+            print((name, '-', 'skipped: caught by the thorough tier only (see meta.json)', '-'), flush=True)
+            continue
         if only and not any(name.startswith(o) for o in only):
             continue
         if sh(f'git -C /repo apply {d}/patch.diff').returncode != 0:
